@@ -288,6 +288,60 @@ theorem unpack_order (f : α → α) (xs : List α) (l r : Nat) (starred : Bool)
     apply lookup_of_map
     simp only [List.map_append, hes1', hes2', List.map_nil, List.append_nil]
 
+/-- **C19 (unpacking binds its targets left to right)**: `_assign_array` binds the non-starred
+    targets strictly in pattern order and the starred target last (`assignOrder`; the named probes
+    extracted every run are compared with `emitUnpackNamed`, which uses this order). -/
+theorem unpack_assign_order (l r : Nat) :
+    assignOrder l r true = (List.range (l + 1 + r)).filter (· ≠ l) ++ [l] ∧
+    assignOrder l 0 false = List.range l :=
+  ⟨assignOrder_starred l r, assignOrder_plain l⟩
+
+/-- **C19 (a name on both sides of the star)**: with targets `names` (pattern order: `l` left targets, the
+    starred target at position `l`, `r` right targets; the starred name occurs only once) bound in
+    the order `_assign_array` uses, every name ends up with the wire of its RIGHTMOST occurrence
+    — Python's left-to-right binding. -/
+theorem unpack_named_last_wins (names wires : List Nat) (l r t : Nat)
+    (hn : names.length = l + 1 + r) (hw : wires.length = names.length) (ht : t < names.length)
+    (hstar : ∀ t', t' < names.length → t' ≠ l → names[t']? ≠ names[l]?)
+    (hlast : ∀ t', t < t' → t' < names.length → names[t']? ≠ names[t]?) :
+    lookupName (bindTargets names wires (assignOrder l r true)) names[t] = wires[t]? := by
+  rw [assignOrder_starred, List.getElem?_eq_getElem (hw ▸ ht)]
+  by_cases htl : t = l
+  · subst htl
+    have := lookup_last_occurrence names wires ((List.range (t + 1 + r)).filter (· ≠ t)) [] t ht (hw ▸ ht)
+      (by simp)
+    simpa using this
+  · have hmem : t ∈ (List.range (l + 1 + r)).filter (· ≠ l) := by
+      simp [List.mem_filter, htl]; omega
+    obtain ⟨pre, post, hsplit⟩ := List.append_of_mem hmem
+    have hinc : ((List.range (l + 1 + r)).filter (· ≠ l)).Pairwise (· < ·) :=
+      List.Pairwise.filter _ List.pairwise_lt_range
+    rw [hsplit] at hinc
+    have hgt : ∀ t' ∈ post, t < t' := by
+      have := (List.pairwise_append.mp hinc).2.1
+      exact (List.pairwise_cons.mp this).1
+    have hpost_mem : ∀ t' ∈ post, t' < l + 1 + r ∧ t' ≠ l := by
+      intro t' ht'
+      have : t' ∈ (List.range (l + 1 + r)).filter (· ≠ l) := by rw [hsplit]; simp [ht']
+      simpa [List.mem_filter] using this
+    have hl : l < names.length := by omega
+    have := lookup_last_occurrence names wires pre (post ++ [l]) t ht (hw ▸ ht) (by
+      intro t' ht'
+      rcases List.mem_append.mp ht' with h | h
+      · obtain ⟨h1, h2⟩ := hpost_mem t' h
+        refine ⟨by omega, by omega, ?_⟩
+        have := hlast t' (hgt t' h) (by omega)
+        rwa [List.getElem?_eq_getElem ht] at this
+      · have : t' = l := by simpa using h
+        subst this
+        refine ⟨hl, by omega, ?_⟩
+        have := hstar t ht htl
+        rw [List.getElem?_eq_getElem ht] at this
+        exact fun e => this e.symm)
+    rw [hsplit]
+    simpa [List.append_assoc] using this
+
+
 /-- **C19 (iteration)**: a `for` loop over an array (`ArrayIter.__next__` until `nothing`) yields
     the elements `0 … n-1` in index order, each exactly once, then stops — and for linear arrays the
     final `discard_all_borrowed` succeeds because every element has been handed out.  Any fuel
@@ -369,6 +423,8 @@ example : getitem true (ofList [10, 20, 30]) 3 = .error .indexOob := by rfl
 example : getitem true [some 10, none, some 30] 1 = .error .alreadyBorrowed := by rfl
 example : setitem false (ofList [10, 20, 30]) 2 7 = .ok (ofList [10, 20, 7]) := by rfl
 example : IsI64 (-1) ∧ InRange 3 2 ∧ ¬ InRange 3 (-1) := by unfold IsI64 InRange; omega
+/-- `x, *r, x = xs` (names 0, 100, 0; wires 5, 6, 7): x ends up with the wire of the right target -/
+example : lookupName (bindTargets [0, 100, 0] [5, 6, 7] (assignOrder 1 1 true)) 0 = some 7 := by decide
 example : pyUnpack [1, 2, 3, 4, 5] 1 2 = ([1], [2, 3], [4, 5]) := by decide
 example : drain true 4 ⟨ofList [10, 20, 30], 0⟩ = .ok (some [10, 20, 30]) := by rfl
 example : runComp (emitCompLoop 2) (· + 1) 3 (ofList [10, 20]) = .ok (some (vArr (ofList [11, 21]))) := by
